@@ -3485,7 +3485,8 @@ Box<ITV>
       // and use this to refine the appropriate bound.
       bool included;
       PPL_DIRTY_TEMP_COEFFICIENT(denom);
-      if (minimize(revised_lb_expr, numer_lower, denom, included)) {
+      if (ub_var_coeff != 0
+          && minimize(revised_lb_expr, numer_lower, denom, included)) {
         denom_lower *= (denom * ub_var_coeff);
         PPL_DIRTY_TEMP(mpq_class, q);
         assign_r(q.get_num(), numer_lower, ROUND_NOT_NEEDED);
@@ -3524,7 +3525,8 @@ Box<ITV>
       // and use this to refine the appropriate bound.
       bool included;
       PPL_DIRTY_TEMP_COEFFICIENT(denom);
-      if (maximize(revised_ub_expr, numer_upper, denom, included)) {
+      if (lb_var_coeff != 0
+          && maximize(revised_ub_expr, numer_upper, denom, included)) {
         denom_upper *= (denom * lb_var_coeff);
         PPL_DIRTY_TEMP(mpq_class, q);
         assign_r(q.get_num(), numer_upper, ROUND_NOT_NEEDED);
